@@ -10,7 +10,7 @@ Directed recipes come from the case analysis of the proof (MpirProofs/Lemmas/SbD
  * qh = 1: the dn high limbs of n are >= d (sb_init).
 The python mirror of the model below is run on every generated input to COUNT the branches taken
 (`python3 tools/props/c02_sb.py [quick|thorough]`; the counts go into the evidence as coverage.c02_sb_model_branches).
-Quick tier, seed 1: plain 7790, special 2216, addback 1034, qh1 370 over 1636 ops.
+Quick tier, seed 1, standalone (`python3 tools/props/c02_sb.py`): plain 7790, special 2216, addback 1034, qh1 370 over 1636 ops.
 """
 import collections, random, sys, os
 sys.path.insert(0, os.path.dirname(os.path.dirname(os.path.abspath(__file__))))
